@@ -161,8 +161,29 @@ struct Sys {
     broken: std::cell::Cell<bool>,
 }
 
+/// Model numbers at and beyond +-TOP stand for the ends of the i128 range: -TOP + k = i128::MIN + k, TOP - k = i128::MAX - k
+/// (the traces hold 32-bit numbers; the embedding keeps order and differences near each end).
+const TOP: i64 = 1_000_000_000;
+fn big(x: i64) -> i128 {
+    let x = x.clamp(-TOP, TOP);
+    if x <= -TOP + 1_000_000 {
+        i128::MIN + (x + TOP) as i128
+    } else if x >= TOP - 1_000_000 {
+        i128::MAX - (TOP - x) as i128
+    } else {
+        x as i128
+    }
+}
 fn small(v: i128) -> Value {
-    if v.abs() < (1 << 30) { json!(v as i64) } else { json!(-999_999) }
+    if v.abs() < (1 << 29) {
+        json!(v as i64)
+    } else if v >= i128::MAX - 900_000 {
+        json!(TOP - (i128::MAX - v) as i64)
+    } else if v <= i128::MIN + 900_000 {
+        json!(-TOP + (v - i128::MIN) as i64)
+    } else {
+        json!(-999_999)
+    }
 }
 
 impl Sys {
@@ -294,7 +315,7 @@ impl Sys {
         let tgt_n = s(op, "tgt");
         let tfn = s(op, "tfn");
         let diff = s(op, "diff");
-        let (fee, max) = (n(op, "fee") as i128, n(op, "max") as i128);
+        let (fee, max) = (big(n(op, "fee")), big(n(op, "max")));
         let exp = (now as i64 + n(op, "de")).max(0) as u32;
         let x = n(op, "x") as u32;
         let user = self.names.get(s(op, "user"));
@@ -320,7 +341,7 @@ impl Sys {
         let mut auths: Vec<(Address, Inv)> = Vec::new();
         if diff != "absent" && user != self.fw {
             let a_tok = if diff == "token" { self.names.get(Self::other(tok_n, &TOKS)) } else { tok.clone() };
-            let a_max = if diff == "max" { max - 1 } else { max };
+            let a_max = if diff == "max" { max.wrapping_sub(1) } else { max };
             let a_exp = if diff == "exp" { exp + 1 } else { exp };
             let a_tgt = if diff == "target" { self.names.get(Self::other(tgt_n, &TGTS)) } else { tgt.clone() };
             let a_fn = if diff == "fn" { Symbol::new(e, Self::other(tfn, &["hit", "hit_auth"])) } else { fn_sym.clone() };
@@ -377,7 +398,7 @@ impl Sys {
             "approve" => {
                 let user = self.names.get(s(op, "user"));
                 let tok = self.names.get(s(op, "tok"));
-                let amt = n(op, "max") as i128;
+                let amt = big(n(op, "max"));
                 let until = (now as i64 + n(op, "de")).max(0) as u32;
                 set_auths(e, &[(user.clone(), Inv::new(&tok, "approve", args(e, (user.clone(), self.fw.clone(), amt, until))))]);
                 res_of(&token::FeeTokenClient::new(e, &tok).try_approve(&user, &self.fw, &amt, &until))
@@ -479,7 +500,7 @@ fn main() {
                             let max = match r.gen_range(0..12) {
                                 _ if plain => r.gen_range(1..=ub.clamp(1, 12)),
                                 0 => 0,
-                                1 => -1,
+                                1 => *pick(&mut r, &[-1i64, -1, -TOP, -TOP + 3, -TOP + 19, TOP, TOP - 1]),
                                 2 | 3 if pre > 0 => pre - 1,
                                 4 | 5 if pre > 0 => pre,
                                 6 | 7 if pre > 0 => pre + 1,
@@ -489,6 +510,8 @@ fn main() {
                                 _ if plain => if max > 1 { r.gen_range(1..=max) } else { 1 },
                                 0 => 0,
                                 1 => -1,
+                                // a maximum at the bottom of the i128 range: fees around the distance to i128::MIN
+                                _ if max <= -TOP + 1000 => (max + TOP) + *pick(&mut r, &[-1i64, 0, 1, 1, 2]),
                                 2 => max + 1,
                                 3 | 4 => max,
                                 5 => ub + 1,
